@@ -354,6 +354,8 @@ fn spawn_output_flusher(
         .spawn(move || loop {
             match stop_rx.recv_timeout(OUTPUT_FLUSH_INTERVAL) {
                 Err(RecvTimeoutError::Timeout) => {
+                    #[cfg(wilfred_garden_verif)]
+                    crate::verif::point("flusher.tick", "");
                     flush_output_buffer(&stdout_buf, b"out", &response_tx, &base_msg);
                     flush_output_buffer(&stderr_buf, b"err", &response_tx, &base_msg);
                 }
@@ -435,13 +437,19 @@ fn eval_code_in_namespace(
         flush_stop_rx,
     );
 
+    #[cfg(wilfred_garden_verif)]
+    crate::verif::point("eval.begin", "");
     let eval_start = Instant::now();
     let eval_result = eval_toplevel_exprs_then_stop(&items, env, session, Rc::clone(&namespace));
     let eval_msec = eval_start.elapsed().as_millis() as i64;
+    #[cfg(wilfred_garden_verif)]
+    crate::verif::point("eval.end", "");
 
     // Stop the flusher and drain whatever printed since its last pass.
     drop(flush_stop_tx);
     let _ = flusher.join();
+    #[cfg(wilfred_garden_verif)]
+    crate::verif::point("final_drain", "");
     flush_output_buffer(stdout_buf, b"out", response_tx, base_msg);
     flush_output_buffer(stderr_buf, b"err", response_tx, base_msg);
 
@@ -769,6 +777,8 @@ impl Connection {
         // Wake any in-progress eval so the worker shuts down
         // promptly once we drop the request channel.
         if let Some(s) = self.sessions.get(id) {
+            #[cfg(wilfred_garden_verif)]
+            crate::verif::point("close.before_store", id);
             s.interrupted.store(true, Ordering::SeqCst);
         }
         self.sessions.remove(id).is_some()
@@ -849,8 +859,12 @@ fn session_worker(
     let mut env = Env::new(id_gen, vfs);
 
     while let Ok(req) = request_rx.recv() {
+        #[cfg(wilfred_garden_verif)]
+        crate::verif::point("dequeued", "");
         // Clear any stray interrupt set while the session was idle.
         interrupted.store(false, Ordering::SeqCst);
+        #[cfg(wilfred_garden_verif)]
+        crate::verif::point("flag_reset", "");
 
         let stdout_buf = Arc::new(Mutex::new(String::new()));
         let stderr_buf = Arc::new(Mutex::new(String::new()));
@@ -908,6 +922,8 @@ fn session_worker(
                 return;
             }
         }
+        #[cfg(wilfred_garden_verif)]
+        crate::verif::point("responses.sent", "");
     }
 }
 
@@ -1120,6 +1136,8 @@ fn handle_message(conn: &mut Connection, request: &HashMap<Vec<u8>, Value>) {
     let id = dict_get(request, "id").and_then(as_str).unwrap_or("");
     let session = dict_get(request, "session").and_then(as_str).unwrap_or("");
     debug!(op, id, session, "nREPL: received request");
+    #[cfg(wilfred_garden_verif)]
+    crate::verif::point("dispatch", &format!("{op} {id} {session}"));
 
     let base = base_response(request);
 
@@ -1215,7 +1233,11 @@ fn handle_message(conn: &mut Connection, request: &HashMap<Vec<u8>, Value>) {
             let session_id = dict_get(request, "session").and_then(as_str);
             match session_id.and_then(|s| conn.sessions.get(s)) {
                 Some(s) => {
+                    #[cfg(wilfred_garden_verif)]
+                    crate::verif::point("interrupt.before_store", id);
                     s.interrupted.store(true, Ordering::SeqCst);
+                    #[cfg(wilfred_garden_verif)]
+                    crate::verif::point("interrupt.after_store", id);
                     let mut msg = base;
                     msg.insert(b"status".to_vec(), Value::List(vec![bstr("done")]));
                     conn.send(Value::Dict(msg));
